@@ -34,6 +34,8 @@ def dim(n):
             return 'H'
         if 'index' in nm and 'handle' not in nm:
             return 'I'
+        if nm.startswith('number_of_') and 'attribute' in nm:      # a count of attributes bounds indices, never handles (fixed handles leave gaps)
+            return 'I'
     b = as_binop(n)
     if b and b[0] in ('+', '-'):
         d1, d2 = dim(b[1]), dim(b[2])
